@@ -33,7 +33,7 @@ ASSUMPTIONS = [
     "MOVED reference for %ordered groups: the rows not marked moved must be exactly the longest prefix of the new sequence "
     "that is also, in order, what is left of the old sequence after deleting removed rows (minimal set for an appending device)",
 ]
-BUDGET = {"quick": 150, "thorough": 900}
+BUDGET = {"quick": 150, "thorough": 1500}
 
 OPS = None
 
